@@ -36,6 +36,7 @@ import (
 	"k8s.io/apimachinery/pkg/runtime"
 	"k8s.io/apimachinery/pkg/types"
 	"k8s.io/apimachinery/pkg/util/intstr"
+	utiljson "k8s.io/apimachinery/pkg/util/json"
 	"k8s.io/apimachinery/pkg/util/validation/field"
 	"k8s.io/klog/v2"
 	utilpointer "k8s.io/utils/pointer"
@@ -242,7 +243,8 @@ func (r *customController) restoreObject(obj *unstructured.Unstructured) (modifi
 	}
 	oSpecStr := annotations[OriginalSpecAnnotation]
 	var oSpec Data
-	_ = json.Unmarshal([]byte(oSpecStr), &oSpec)
+	// decode integers as int64 (not float64) so that values beyond 2^53 are restored exactly
+	_ = utiljson.Unmarshal([]byte(oSpecStr), &oSpec)
 	obj.Object["spec"] = oSpec.Spec
 	obj.SetAnnotations(oSpec.Annotations)
 	obj.SetLabels(oSpec.Labels)
